@@ -48,12 +48,16 @@ RULE = ("random path expressions (depth <= 4 quick / <= 6 thorough; iri, ^, /, |
         "builds paths incrementally from shared sub-path objects with the operators / constructors and evaluates every object before "
         "and after it was used as an operand (constructors must not mutate operands), one in twelve has an EMPTY active graph (fresh, emptied after adds, empty default graph, empty registered named graph); the thorough tier first sweeps ALL 2^18 graphs over 3 nodes x 2 "
         "predicates (blocks of 128) against 24 fixed path shapes with the oracle (one shape per graph also against the "
-        "model).  non-trivial = the path has an operator and some binding with a given end has a non-empty answer; "
+        "model).  Round g, on every ordinary case: route sparql_n3 (the query text of the path is the object's own n3(), plain or with a "
+        "namespace manager; lines n3| = the text's tokens vs the Lean writer, readn3 = rdflib's parse tree and translatePath object of that "
+        "text vs the Lean reader and translate), route api (in / objects / subjects / subject_objects with unique False and True, [x, x] as "
+        "a list-valued end, Graph.value) and route first_false (MulPath.eval(..., first=False) when the top is a MulPath).  non-trivial = the path has an operator and some binding with a given end has a non-empty answer; "
         "distinct = distinct (triples, path, ends)")
 ASSUMPTIONS = ["a Graph / Dataset / aggregate view is the set of its triples (C01/C02/C15)",
                "VALUES-bound ends are only compared when the term occurs in the graph (for an absent term the algebra's "
                "answer differs from the answer for a constant in the pattern - C15-K1; the property speaks of given terms)"]
-TRUSTED = ["harness/c11.py generators, oracle and canonicalisation", "lean/RV/C11/Drive.lean line protocol and path parser"]
+TRUSTED = ["harness/c11.py generators, oracle and canonicalisation (incl. the lexer n3_words of n3() text and the sorting of negated-set members)",
+           "lean/RV/C11/Drive.lean line protocol and path parser"]
 
 E = "http://e/"
 NODE = {1: URIRef(E + "a"), 2: URIRef(E + "b"), 3: URIRef(E + "c"), 4: Literal(""), 5: Literal(0), 6: Literal(False),
